@@ -320,7 +320,7 @@ class StateAnalysis:
                 dep |= self.varying(self.roots(g, n, e)) - {("attr", attr)}
         return dep
 
-    def justify(self, f, node, attr, kind):
+    def justify(self, f, node, attr, kind, _deferred=None):
         """(ok, reason) for a cross-call read of `attr` at `node` of `f`.
 
         J1: nothing the stored value depends on can vary between calls.
@@ -337,6 +337,26 @@ class StateAnalysis:
         g = fi.cfg
         if self._feeds_only_guards(f, node, attr):
             return True, "guard read: the value read only feeds the test that decides whether the cache is refreshed"
+        # `local = self.attr` only names the cached object: what matters is where that value is used.  The uses reached by this
+        # definition (other than the guard tests themselves) are justified one by one, as reads at those points.
+        st0 = node.stmt
+        if _deferred is None and isinstance(st0, ast.Assign) and len(st0.targets) == 1 and isinstance(st0.targets[0], ast.Name) and self_attr(st0.value, fi.selfname) == attr:
+            local = st0.targets[0].id
+            tests = {id(x) for t in self._guard_tests(f, attr) for x in ast.walk(t)}
+            uses = []
+            for n2 in g.nodes:
+                if n2 is node or (local, node.id) not in fi.RD.get(n2.id, ()):
+                    continue
+                exprs = [n2.stmt.test] if n2.kind == "if" and n2.stmt is not None else ([n2.stmt] if n2.stmt is not None and n2.kind in ("stmt", "return") else [])
+                for e in exprs:
+                    if any(isinstance(x, ast.Name) and x.id == local and isinstance(x.ctx, ast.Load) and id(x) not in tests for x in ast.walk(e)):
+                        uses.append(n2)
+            if uses:
+                for u in uses:
+                    ok_u, why_u = self.justify(f, u, attr, kind, _deferred=node)
+                    if not ok_u:
+                        return False, why_u
+                return True, f"J2 (through the local `{local}`): every use of the value read is behind a guard comparing the current key with the cache"
         write_nodes = set()
         removed = set()  # (src id, dst id) skip edges of J2 guards
         notes = []
